@@ -302,6 +302,24 @@ fn request_case(rng: &mut Rng, ctx: &mut Ctx) {
     req.headers_mut().insert("content-type", HeaderValue::from_static(ctype));
     req.headers_mut().insert("x-user", HeaderValue::from_static("u"));
     req.headers_mut().insert("content-length", HeaderValue::from_str(&wire.len().to_string()).unwrap());
+    // gRPC's own negotiation headers and custom metadata, present or absent: they belong to the
+    // caller and must reach the inner service exactly as sent (none added, none altered)
+    for (name, vals) in [
+        ("grpc-accept-encoding", &["identity", "zstd", "gzip,deflate", "identity,zstd", ""][..]),
+        ("grpc-encoding", &["identity", "gzip", "zstd"][..]),
+        ("grpc-timeout", &["5S", "100m", "1H"][..]),
+    ] {
+        if rng.chance(2, 5) {
+            req.headers_mut().insert(name, HeaderValue::from_static(*rng.pick(vals)));
+        }
+    }
+    let user_meta = crate::gen::gen_meta(rng, 3, false);
+    {
+        let mut mm = tonic::metadata::MetadataMap::from_headers(std::mem::take(req.headers_mut()));
+        crate::gen::apply_meta(&mut mm, &user_meta);
+        *req.headers_mut() = mm.into_headers();
+    }
+    let sent_headers = req.headers().clone();
     let mut ex = Exec::new();
     let resp = match ex.block_on(100_000, svc.call(req)) {
         Out::Done(Ok(r)) => r,
@@ -320,8 +338,20 @@ fn request_case(rng: &mut Rng, ctx: &mut Ctx) {
     if p.headers.get("content-type").map(|v| v.as_bytes()) != Some(b"application/grpc") {
         ctx.violation("inner-content-type", format!("{:?}", p.headers.get("content-type")));
     }
-    if p.headers.get("te").map(|v| v.as_bytes()) != Some(b"trailers") {
-        ctx.violation("inner-te", format!("{:?}", p.headers.get("te")));
+    if p.headers.get("te").map(|v| v.as_bytes()) == Some(b"trailers") {
+        // not constrained by the property: observed
+        ctx.count("observed.inner_te_trailers");
+    }
+    {
+        let keep = |k: &str| k.starts_with("grpc-") || user_meta.iter().any(|(uk, _)| uk == k);
+        let mut sent = headers_to_multimap(&sent_headers);
+        sent.retain(|k, _| keep(k));
+        let mut got = headers_to_multimap(&p.headers);
+        got.retain(|k, _| keep(k));
+        if sent != got {
+            ctx.violation("inner-grpc-headers-differ", format!("gRPC / custom headers sent {:?}, the inner service saw {:?}", sent.iter().map(|(k, v)| (k.clone(), v.iter().map(|x| String::from_utf8_lossy(x).to_string()).collect::<Vec<_>>())).collect::<Vec<_>>(), got.iter().map(|(k, v)| (k.clone(), v.iter().map(|x| String::from_utf8_lossy(x).to_string()).collect::<Vec<_>>())).collect::<Vec<_>>()));
+        }
+        ctx.count("req.grpc_headers_compared");
     }
     if p.headers.get("x-user").is_none() || p.uri != "/pkg.S/M?q=1" || p.method != Method::POST {
         ctx.violation("inner-head", "request head altered".into());
